@@ -137,6 +137,21 @@ def run(res, tier, replay):
         scns.append(sc); meta.append(("chm-hist", 9500 + di, order, {k: exp[nm][:3] for k, nm in enumerate(names)}))
         for m_ in range(len(names)):
             scns.append(scenario.Scn().file("in0.chm", bytes(b)).op("chm_new").op("chm_open", "h0", "in0.chm").op("chm_extract", "h0", m_, "ref")); meta.append(("chm-ref", 9500 + di, m_))
+    # directed (own generator state): a member of the first part extracted BEFORE the parts of a set are joined, later members of the same
+    # folder after the join (the folder grows while its decoder is alive)
+    for di in range(2):
+        from vlib import cabfmt
+        r9 = random.Random(990 + di)
+        fo = cabfmt.Folder(("none",), [cabfmt.Member(b"j%d.bin" % j, data=bytes(r9.randrange(256) for _ in range(ln))) for j, ln in enumerate([3000, 40000, 30000])])
+        for m_ in fo.members: m_.length = len(m_.data)
+        fo.prepare(r9); cabs_, names_ = cabfmt.build_set([fo], [(0, 1, 5000 + 20000 * di)], r9, names=[b"j1.cab", b"j2.cab"])
+        order = [0, 2, 1, 0] if di == 0 else [0, 1, 2, 1]
+        sc = scenario.Scn().file("in0.cab", cabs_[0]).file("in1.cab", cabs_[1]).op("cab_new").op("cab_open", "c0", "in0.cab").op("cab_open", "c1", "in1.cab")
+        sc.op("cab_extract", "c0", order[0], "o0_%d" % order[0]).op("cab_append", "c0", "c1")
+        for j, m_ in enumerate(order[1:]): sc.op("cab_extract", "c0", m_, "o%d_%d" % (j + 1, m_))
+        scns.append(sc); meta.append(("lat-hist", 9800 + di, order))
+        for m_ in range(3):
+            scns.append(scenario.Scn().file("in0.cab", cabs_[0]).file("in1.cab", cabs_[1]).op("cab_new").op("cab_open", "c0", "in0.cab").op("cab_open", "c1", "in1.cab").op("cab_append", "c0", "c1").op("cab_extract", "c0", m_, "ref")); meta.append(("lat-ref", 9800 + di, m_))
     # one decompressor used for two sets in a row (allocator that hands freed blocks out again): the first set is closed through its head
     # while the data file read last belongs to a later part; nothing of it may reach the second set's members
     for i in range(3 if tier == "quick" else 20):
@@ -186,7 +201,7 @@ def run(res, tier, replay):
         for j, o in enumerate(ex):
             idx = int(o.kv["idx"]) if "idx" in o.kv else m[2][j]
             want = ref.get((m[0][:3], m[1], idx)); ncalls += 1
-            if m[0] in ("rcy-hist", "tny-hist", "dmg-hist", "two-hist"): idx = m[2][j]
+            if m[0] in ("rcy-hist", "tny-hist", "dmg-hist", "two-hist", "lat-hist"): idx = m[2][j]
             fol = m[2][idx] if m[0] == "cab-hist" and idx < len(m[2]) else (0 if m[0] == "dmg-hist" else None)
             if want is None: continue
             if (o.kv.get("st"), o.out) != want:
